@@ -243,7 +243,9 @@ example :
 /-- **dispatcher_atomic**: for every input sequence, the destination of a packet is the slave addressed by the
     `sel` input in the cycle in which its first beat is transferred (no slave if `sel` addresses none: the
     packet is drained), and every further beat up to `last` goes to that same destination whatever `sel` does
-    in the meantime (the Dispatcher latches `sel` while `status.first`). -/
+    in the meantime (the Dispatcher latches `sel` while `status.first`).
+    (This is the machine the constructor builds for ≥ 2 slaves or `one_hot`; for a single slave without `one_hot`
+    it builds a plain connection, modelled as `dispatcherConnect`, where there is nothing to tear.) -/
 theorem dispatcher_atomic (m : Nat) (oneHot : Bool) (ins : List DispIn) :
     routedFrom m oneHot none (dispLog m oneHot (dispatcher m oneHot).init ins) :=
   dispatcher_atomic_from m oneHot ins _ none (by simp [dispInv, dispatcher])
